@@ -108,10 +108,15 @@ class World:
                # objects larger than 4 bytes whose type refuses the access (locked by the application)
                (6, S.ERR["OBJ_READ"], S.ERR["OBJ_WRITE"], 0), (6, 0, S.ERR["OBJ_ACC"], 0), (6, S.ERR["TYPE_RD"], 0, 0),
                # ... and which name their own abort code while doing so (only expedited transfers forward it)
-               (6, S.ERR["TYPE_RD"], S.ERR["TYPE_WR"], 0x08000022), (9, 0, S.ERR["TYPE_WR"], 0x06060000)]
+               (6, S.ERR["TYPE_RD"], S.ERR["TYPE_WR"], 0x08000022), (9, 0, S.ERR["TYPE_WR"], 0x06060000),
+               # the application's code together with an error the stack has its own code for: the application's code is sent
+               (4, S.ERR["OBJ_RANGE"], S.ERR["OBJ_RANGE"], 0x06090031), (2, S.ERR["OBJ_MAP_TYPE"], S.ERR["OBJ_MAP_TYPE"], 0x06040047),
+               (1, S.ERR["OBJ_INCOMPATIBLE"], S.ERR["OBJ_MAP_LEN"], 0x08000024)]
         for i, u in enumerate(usr):
             cfg.add(Obj(0x2130, i, RW, "usr", "U", u[0], u[1], u[2], "%x" % u[3], 0x11223344))
             m[(0x2130, i)] = OM(0x2130, i, "usr", RW, usr=u)
+        # SDO client parameters (writable, not part of the model: only hostile traffic touches them)
+        gen.add_csdo(cfg, 0, server=rng.choice([2, 5, 127]))
         cfg.finalize()
         self.cfg = cfg
         self.indices = set(o.idx for o in cfg.objs)
